@@ -661,7 +661,8 @@ class Resolver:
                 if g is not None:
                     targets.append(g)
                     # virtual dispatch: overriding methods in subclasses of the static receiver type
-                    if g.cls and isinstance(fn, ast.Attribute):
+                    is_super = isinstance(fn, ast.Attribute) and isinstance(fn.value, ast.Call) and isinstance(fn.value.func, ast.Name) and fn.value.func.id == "super"
+                    if g.cls and isinstance(fn, ast.Attribute) and not is_super:
                         for sub in self.prog.subclasses(self.prog.all_classes[g.cls]):
                             if g.name in sub.methods and sub.methods[g.name] not in targets:
                                 targets.append(sub.methods[g.name])
